@@ -4,7 +4,7 @@ from vlib import core
 
 THEOREMS = ["Props.C05." + t for t in [
     "tables_match_spec", "typedef_fixpoint_complete", "resolve_category", "resolve_const_binding_partial",
-    "dotted_has_no_candidate", "used_iff_referenced", "deref_total", "order_independent",
+    "kwlist_has_no_candidate", "getEnum_fuel_unreachable", "used_iff_referenced", "deref_total", "order_independent",
 ]]
 
 RULE = ("seeded multi-file IDL programs (include DAGs with diamonds, equal base names in different directories, dotted "
@@ -27,8 +27,8 @@ def run(ctx):
         "include graphs are acyclic (parser.CircleDetect runs before resolution); the model's include recursion reports "
         "includeCycle instead of mirroring resolution against a half-initialised AST",
         "Go map Name2Category is modelled as an association list read through lookup only",
-        "unbounded Go recursion (getEnum, Deref) is modelled with fuel; exhaustion = fatal crash; the driver's fuel "
-        "(2*typedefs+files+2) exceeds every acyclic chain",
+        "unbounded Go recursion of Deref is modelled with fuel (exhaustion = fatal crash); getEnum carries Go's visited set, "
+        "its fuel (2*typedefs+files+2) is a structural device (theorem getEnum_fuel_unreachable)",
         "resolution errors are compared by class derived from the error text (patterns in harness/cmd/c05/worker.go)",
     ]
     if exe:
@@ -55,17 +55,18 @@ def run(ctx):
                        distribution=st["distribution"], exhaustive=False)
         for f in (st.get("oracle_failures") or []):
             ctx.add_violation(f["key"], f["what"], f["input"], f["expected"], f["observed"])
-        crashes = st["distribution"].get("outcome:err:crash", 0)
-        if crashes:
-            ctx.notes.append("%d generated programs of the shape 'typedef cycle reached through a dotted constant identifier' killed "
-                             "the Go runtime (stack overflow in getEnum), as the model predicts (Err.crash); this is the C04 "
-                             "candidate of DESIGN.md §7, outside C05's statement (the program is not accepted)" % crashes)
+        for k, n in st["distribution"].items():
+            if k.startswith("observed:"):
+                line = "OBSERVED (outside the hypotheses, not a verdict): " + k[len("observed:"):]
+                ctx.notes.append(line)
+                print(line)
         if drv:
             model = ctx.run_model("tv_c05", os.path.join(ctx.work, "ops.txt"))
             ctx.diff_lines("c05", os.path.join(ctx.work, "ops.txt"), os.path.join(ctx.work, "impl.txt"), model)
-    ctx.partial.append("resolve_const_binding_partial: assumes Program.saneNames (no global name is empty, contains a '.', or is a "
-                       "type keyword); without it the statement is false on the model and on the code (witness Props.C05.dotted, "
-                       "theorem dotted_has_no_candidate; replayed on the implementation as the fixed case err:dotted-definition-name)")
+    ctx.partial.append("resolve_const_binding_partial: assumes Program.saneNames (no global name is empty or a type keyword; dotted names are allowed); "
+                       "without it the statement is false on the model and on the code (witness Props.C05.kwlist, theorem "
+                       "kwlist_has_no_candidate; observed on the implementation as the fixed case "
+                       "err:keyword-named-enum-behind-container-typedef)")
     return ctx.finish(rule=RULE)
 
 
